@@ -240,16 +240,30 @@ def _plus_one(t):
     return None
 
 
+def _const_part(t):
+    """the constant summand of a (canonically spelled) +/- expression: `a + 1 - b` -> 1"""
+    c = 0
+    while _is_addsub(t):
+        if t[3][0] == "int":
+            c += t[3][1] if t[1] == "Add" else -t[3][1]
+        t = t[2]
+    return c
+
+
 def _succ_norm(a):
     """integers, no overflow (the enumerator's standing assumption): x < y+1 is x <= y, and x+1 <= y is x < y"""
     if a[0] == "lt":
         y = _plus_one(a[2])
         if y is not None:
             return ("le", a[1], y)
+        if _const_part(a[2]) >= 1:
+            return ("le", a[1], mk_bin("Sub", a[2], ("int", 1, "usize")))
     if a[0] == "le":
         x = _plus_one(a[1])
         if x is not None:
             return ("lt", x, a[2])
+        if _const_part(a[1]) >= 1:
+            return ("lt", mk_bin("Sub", a[1], ("int", 1, "usize")), a[2])
     return a
 
 
